@@ -125,6 +125,9 @@ const TEMPLATES: &[&str] = &[
     "_{MEASure}:{DATA}~\"x\"_,_#10_,_0_;_:{SYSTem}:{VALue}?_$",
     "_{VOLTage}:{LEVel}?_;_:{SOURce}:{VOLTage}:{LEVel}~.5_$",
     "_{CALibration}:{TemperatureCompensation}~7_;_{TemperatureCompensation}?_$",
+    // look-alike siblings (underscore / digit / letter at the same place, one a prefix of another)
+    "_{TRIGger}:{SOURce}~1_;_:{TRIG_Out}:{STATe}~{=ON}_;_:{TRIG1}:{STATe}?_$",
+    "_{OUTPut_A}:{LEVel}~2_;_:{OUTPut}:{LEVel}~3_;_:{OUTPuts}:{LEVel}?_$",
 ];
 
 /// A variant assigns: each Mn piece a form index, each slot a white-space
